@@ -225,6 +225,9 @@ pub fn tree_paths(rng: &mut Rng, tree: &TreeSpec) -> Vec<(String, &'static str)>
 /// whose request buffer is `buf` bytes. Returns (class label, bytes).
 pub fn mutated_request(rng: &mut Rng, base_target: &str, buf: usize) -> (&'static str, Vec<u8>) {
     let t = base_target;
+    if rng.chance(1, 4) {
+        return ("positional_mutation", positional_mutation(rng, t));
+    }
     match rng.below(46) {
         0 => ("valid_get", get(t)),
         1 => ("valid_head", req("HEAD", t, &[], b"")),
@@ -350,6 +353,51 @@ pub fn mutated_request(rng: &mut Rng, base_target: &str, buf: usize) -> (&'stati
         44 => ("query_odd", get(&format!("{}?{}", t, rng.pick(&["a=b=c", "&&&", "%", "a=%", "=", "\u{fc}=\u{fc}", "a[]=1&a[]=2", "x=1?y=2"])))),
         _ => ("builtin", get(*rng.pick(&["/", "/style.css", "/script.js", "/favicon.svg", "/404.html", "/index.html"]))),
     }
+}
+
+/// A valid request with 1..3 byte-level mutations at random positions of its method, target,
+/// version, header names/values, delimiters and body.
+pub fn positional_mutation(rng: &mut Rng, t: &str) -> Vec<u8> {
+    let mp = "--B\r\nContent-Disposition: form-data; name=\"f\"\r\n\r\nvalue\r\n--B--\r\n";
+    let mut v = match rng.below(7) {
+        0 => req("GET", t, &[("Range", "bytes=0-9,20-29"), ("Origin", "http://a.example"), ("Accept", "*/*")], b""),
+        1 => req("HEAD", t, &[("Origin", "http://a.example")], b""),
+        2 => req("OPTIONS", t, &[("Origin", "http://a.example"), ("Access-Control-Request-Method", "GET"), ("Access-Control-Request-Headers", "X-A")], b""),
+        3 => req("POST", FORM_URLENC, &[("Content-Type", "application/x-www-form-urlencoded"), ("Content-Length", "7")], b"a=1&b=2"),
+        4 => req("POST", FORM_MULTIPART, &[("Content-Type", "multipart/form-data; boundary=B"), ("Content-Length", &mp.len().to_string())], mp.as_bytes()),
+        5 => get(&format!("{}?a=1&b=two#frag", FORM_GET)),
+        _ => req("POST", &format!("{}?name=a.txt&size=5&lastModified=1", FILE_UPLOAD), &[("Content-Length", "5")], b"hello"),
+    };
+    const INS: &[u8] = b" \r\n\0:%/.-=&;,\"'\\\xff\x80+#?*0a";
+    for _ in 0..rng.range(1, 3) {
+        if v.is_empty() {
+            break;
+        }
+        let pos = rng.below(v.len());
+        match rng.below(6) {
+            0 => {
+                v.remove(pos);
+            }
+            1 => v.insert(pos, *rng.pick(INS)),
+            2 => v[pos] = *rng.pick(INS),
+            3 => {
+                let b = v[pos];
+                let n = rng.range(1, 40);
+                for _ in 0..n {
+                    v.insert(pos, b);
+                }
+            }
+            4 => {
+                let end = (pos + rng.range(1, 12)).min(v.len());
+                v.drain(pos..end);
+            }
+            _ => {
+                let other = rng.below(v.len());
+                v.swap(pos, other);
+            }
+        }
+    }
+    v
 }
 
 // ------------------------------------------------------------------------------------------ faults
